@@ -50,7 +50,7 @@ impl Default for FuncCfg {
     }
 }
 
-pub const ID_POOL: [u64; 20] = [
+pub const ID_POOL: [u64; 26] = [
     0,
     1,
     2,
@@ -67,6 +67,13 @@ pub const ID_POOL: [u64; 20] = [
     255,
     256,
     1000,
+    // around the sizes of small flat tables
+    1023,
+    1024,
+    1025,
+    4096,
+    65535,
+    65536,
     1 << 32,
     (1 << 32) + 5,
     (1 << 53) + 1,
